@@ -92,7 +92,10 @@ def _pick(r, seq, p=None):
 
 def _mk(cid, r, blk, **f):
     """One case descriptor; every option that is not forced is drawn from r."""
-    sizes = f.get("sizes") or [int(r.integers(1, 7)) for _ in range(int(r.integers(1, 4)))]
+    if f.get("big"):
+        sizes = [int(r.integers(1, 13)) for _ in range(int(r.integers(1, 6)))]
+    else:
+        sizes = f.get("sizes") or [int(r.integers(1, 7)) for _ in range(int(r.integers(1, 4)))]
     n = sum(sizes)
     obj = f.get("obj") or _pick(r, OBJS)
     zg = None
@@ -208,6 +211,9 @@ def plan(tier, seed):
     # --- random block
     for _ in range(800 if quick else 12000):
         add("rand")
+    # --- beyond the enumerated bound: up to 5 signals of up to 12 entries
+    for _ in range(80 if quick else 3000):
+        add("big", big=True)
     return cases
 
 
@@ -381,7 +387,7 @@ def _perm_explains(q, xs, xl, eps):
 # ===================================================================================== one case
 def _shape_for(kind, n):
     if kind == "mat":
-        return {4: (2, 2), 6: (2, 3)}.get(n, (1, n))
+        return {4: (2, 2), 6: (2, 3), 8: (2, 4), 9: (3, 3), 10: (5, 2), 12: (3, 4)}.get(n, (1, n))
     return None
 
 
